@@ -75,12 +75,34 @@ Fixpoint run_cat (s : st) (es : list ev) : st * list out :=
 Definition keep (ign : N) (o : oobs) : bool :=
   let '(k, a, _, _) := o in negb (((k =? 1) || (k =? 2) || (k =? 3)) && (a =? ign) && negb (ign =? 0)).
 
-Definition same_outputs (ign : N) (o : list out) (obs : list oobs) : bool :=
-  listN_eqb (sortN (map okey (filter (keep ign) (map enc o)))) (sortN (map okey (filter (keep ign) obs))).
+(* In a race of CONNECTs the model hands a pending message to a connection in the same step as its CONNACK; the
+   broker queues it for the connection's writer, and a racer that is taken over at once may never have been sent it -
+   it then goes to the racer that took over (or to both: the second time as a retransmission).  Which of the RACING
+   connections a delivery of that step reached is therefore not compared (deliveries to any other connection are). *)
+Definition racer_cids (es : list ev) : list N :=
+  flat_map (fun e => match e with EConnect c _ _ _ _ _ => [c] | _ => [] end) es.
+Definition norm_racer (rc : list N) (o : oobs) : oobs :=
+  let '(k, a, t, d) := o in if (k =? 3) && existsb (N.eqb a) rc then (k, 0, t, d) else o.
+(* ... or to nobody at all, when the racer that took over asked for a clean start (the pending message is discarded with
+   the session).  So for the RACING connections of a step: every observed delivery must be one the model makes in
+   that step (same message, same flags), none is required; everything else (CONNACKs, closures, wills, deliveries to
+   other connections) is compared exactly.  That a pending message is not LOST across reconnects is C02's subject. *)
+Definition is_norm_delivery (k : N) : bool := (k / (65536 * 1024) =? 3 * 1024).
+Definition memN' (x : N) (l : list N) : bool := existsb (N.eqb x) l.
+
+Definition same_outputs (rc : list N) (ign : N) (o : list out) (obs : list oobs) : bool :=
+  let key := fun l => sortN (map okey (map (norm_racer rc) (filter (keep ign) l))) in
+  match rc with
+  | [] => listN_eqb (key (map enc o)) (key obs)
+  | _ => let e := key (map enc o) in let b := key obs in
+         listN_eqb (filter (fun k => negb (is_norm_delivery k)) e) (filter (fun k => negb (is_norm_delivery k)) b)
+         && forallb (fun k => memN' k e) (filter is_norm_delivery b)
+  end.
 
 Definition nexts (cands : list st) (x : stepobs) : list st :=
+  let rc := match srace x with [] => [] | _ => racer_cids (sev x :: srace x) end in
   flat_map (fun s =>
-    flat_map (fun p => let '(s1, o) := run_cat s p in if same_outputs (sign x) o (sobs x) then [s1] else [])
+    flat_map (fun p => let '(s1, o) := run_cat s p in if same_outputs rc (sign x) o (sobs x) then [s1] else [])
              (perms (sev x :: srace x))) cands.
 
 Fixpoint check (cands : list st) (ss : list stepobs) : bool :=
